@@ -34,7 +34,17 @@ def count_passes(graph, opts):
         after = common.with_alarm(60, om.optimize, graph, opts)
     finally:
         om.Optimizer.__init__ = orig
-    return after, n[0]
+    passes = Passes(n[0])
+    # "reaches a fixed point": one more pass over what optimize() returned finds nothing left to rewrite
+    if len(opts) > 0:
+        again = om.Optimizer(opts)
+        common.with_alarm(60, again._optimize, after)
+        passes.fixed = not again.changed
+    return after, passes
+
+
+class Passes(int):
+    fixed = True
 
 
 def inplace_events(wire_events):
@@ -44,7 +54,7 @@ def inplace_events(wire_events):
 
 def check_pair(before, after, passes, args):
     """-> dict with wire terms, oracle verdicts"""
-    item = {"passes": passes}
+    item = {"passes": int(passes), "fixed_point": bool(getattr(passes, "fixed", True))}
     try:
         item["tb"] = irser.ser_term(before)
         item["ta"] = irser.ser_term(after) if hasattr(after, "inputs") else None
@@ -238,6 +248,42 @@ def synthetic(rng, n):
     return out
 
 
+def there_and_back(rng, n):
+    """a chain of alternating transpose / reshape steps followed by its exact inverse: only the innermost pair is adjacent at
+    first, each merged pair has to disappear before the next becomes adjacent - the number of passes grows with the length"""
+    import einx._src.tracer as tracer
+    np_ = tracer.signature.numpy()
+    T = tracer.signature.classical.Tensor
+    out = []
+    for _ in range(n):
+        rank = rng.randint(2, 3)
+        shape = [rng.choice([2, 3, 4]) for _ in range(rank)]
+        x = T(None, shape=tuple(shape))
+        y, undo, desc = x, [], []
+        for k in range(rng.randint(2, 14)):
+            sh = list(y.shape)
+            if k % 2 == 0:
+                perm = list(range(len(sh)))
+                while perm == sorted(perm):
+                    rng.shuffle(perm)
+                inv = [perm.index(i) for i in range(len(perm))]
+                undo.append(("t", tuple(inv)))
+                y = np_.transpose(y, tuple(perm))
+                desc.append(("transpose", perm))
+            else:
+                s2 = _split(int(np.prod(sh)), rng)
+                undo.append(("r", tuple(sh)))
+                y = np_.reshape(y, tuple(s2))
+                desc.append(("reshape", s2))
+        for kind, arg in reversed(undo):
+            y = np_.transpose(y, arg) if kind == "t" else np_.reshape(y, arg)
+        y = np_.add(y, y)
+        g = tracer.Graph(inputs=[x], output=y, name="op")
+        data = np.arange(int(np.prod(shape)), dtype=np.int64).reshape(shape) + 1
+        out.append((g, [data], {"there_and_back": desc, "shape": shape}))
+    return out
+
+
 def _split(total, rng):
     for d in (2, 3, 4):
         if total % d == 0 and total > d:
@@ -324,7 +370,7 @@ def run(ctx):
     quick = ctx.tier == "quick"
     cases = [gencalls.gen_call(ctx.rng) for _ in range(200 if quick else 5000)]
     real = common.pmap(_work_real, cases)
-    syn_items = synthetic(ctx.rng, 600 if quick else 10000) + perm_pairs(4 if quick else 5) + wrapper_graphs(ctx.rng, 60 if quick else 1500) + unpacking_graphs(ctx.rng, 60 if quick else 1500)
+    syn_items = synthetic(ctx.rng, 600 if quick else 10000) + there_and_back(ctx.rng, 40 if quick else 1000) + perm_pairs(4 if quick else 5) + wrapper_graphs(ctx.rng, 60 if quick else 1500) + unpacking_graphs(ctx.rng, 60 if quick else 1500)
     syn = common.pmap(_work_syn, syn_items)
     adp = common.pmap(_work_adapt, adapter_cases(ctx.rng, 60 if quick else 1500))
     items = [it for its in real + syn + adp for it in its]
@@ -338,6 +384,8 @@ def run(ctx):
         if it.get("oracle") == "differs" or it.get("oracle", "").startswith("raised"):
             ctx.report({"kind": "optimised_graph_computes_something_else", "oracle": it["oracle"][:40]},
                        {"what": it["what"], "detail": it.get("detail", it.get("oracle")), "before": it.get("gb"), "after": it.get("ga")})
+        if not it["fixed_point"]:
+            ctx.report({"kind": "optimised_graph_is_not_a_fixed_point"}, {"what": it["what"], "passes": it["passes"], "before": it.get("gb"), "after": it.get("ga")})
         if "tb" in it and it.get("ta") is not None and len(it["tb"]) == len(it["ta"]):
             for tb, ta in zip(it["tb"], it["ta"]):
                 lines.append(sx(["opt_equiv", [tb, ta]]))
